@@ -5,7 +5,7 @@ sid=$1; shift; cid=$1; shift
 wt=/tmp/wt/try-$sid-$cid-$$
 git -C /repo worktree add -q --detach $wt HEAD || exit 2
 trap "git -C /repo worktree remove --force $wt" EXIT
-git -C $wt apply /verif/seeded/$sid/patch.diff || exit 2
+git -C $wt apply /verif/seeded/$sid/patch.diff 2>/dev/null || { git -C $wt apply --3way /verif/seeded/$sid/patch.diff >/dev/null 2>&1 && ! git -C $wt diff --name-only --diff-filter=U | grep -q . && git -C $wt reset -q; } || { echo "patch does not apply"; exit 2; }
 cd /verif
 VERIF_REPO=$wt ./check $cid "$@" > /tmp/try-$sid-$cid.log 2>&1; rc=$?
 grep -E "^(VIOLATION|violation|KNOWN|OK|NOTE|INCONCLUSIVE)" /tmp/try-$sid-$cid.log | grep -v "^KNOWN" | cut -c1-300 | head -6
